@@ -14,12 +14,15 @@
 (* Isolated: what any thread sees in any live engine is exactly what was declared there.    *)
 EXTENDS Integers, Sequences, FiniteSets, TLC, Json, IOUtils, SequencesExt
 
-CONSTANTS KeyMode, MaxOps
+CONSTANTS KeyMode, MaxOps,
+          WithConvs,       \* the state machine explores either the variable/function histories or, in addition, the conversion histories
+          CacheShared      \* FALSE: each thread caches the set of convertible types PER ENGINE (the code); TRUE models a regression: one cache per thread
 
 EngIds == {1, 2, 3}
 Addrs == {0, 1}
 Thrs == {0, 1, 2}                 \* 0 = main thread, 1..2 long-lived workers
 Names == {"x", "y"}
+Convs == {"1", "2"}             \* user conversions From<k> -> To<k>; an engine knows one only if it was registered in THAT engine
 
 Op(k, e, a, t, n) == [k |-> k, e |-> e, a |-> a, t |-> t, n |-> n]
 
@@ -30,6 +33,8 @@ NewKey(m, op) == CASE KeyMode = "address" -> op.a [] KeyMode = "unique" -> 10 + 
 M0 == [alive |-> [e \in EngIds |-> FALSE], used |-> [e \in EngIds |-> FALSE], addr |-> [e \in EngIds |-> 0],
        key |-> [e \in EngIds |-> 0], cnt |-> [t \in Thrs |-> 0],
        tls |-> [t \in Thrs |-> [k \in Keys |-> {}]],
+       convs |-> [e \in EngIds |-> {}],                                  \* registered in the engine (shared by all threads, behind the engine's mutex)
+       cache |-> [t \in Thrs |-> [k \in Keys \cup {99} |-> {}]],          \* Type_Conversions::thread_cache(): refreshed when its SIZE differs from the engine's
        decls |-> [p \in EngIds \X Thrs |-> {}], fns |-> [e \in EngIds |-> {}], res |-> "ok"]
 
 AddrFree(m, a) == \A e \in EngIds : m.alive[e] => m.addr[e] # a
@@ -44,7 +49,8 @@ Step(m, op) ==
           ELSE [m EXCEPT !.alive[op.e] = FALSE, !.res = "ok",
                          !.tls[op.t][KeyOf(m, op.e)] = {},                       \* ~Thread_Storage: t().erase(key) on the destroying thread only
                          !.decls = [p \in EngIds \X Thrs |-> IF p[1] = op.e THEN {} ELSE m.decls[p]],
-                         !.fns[op.e] = {}])
+                         !.fns[op.e] = {}, !.convs[op.e] = {},
+                         !.cache[op.t][KeyOf(m, op.e)] = {}])
     [] op.k = "decl" ->      \* `var n = v` evaluated at top level on thread t
          (IF ~m.alive[op.e] THEN [m EXCEPT !.res = "skip"]
           ELSE IF op.n \in m.tls[op.t][KeyOf(m, op.e)] THEN [m EXCEPT !.res = "redefined"]          \* what the implementation sees decides
@@ -54,8 +60,22 @@ Step(m, op) ==
           ELSE IF op.n \in m.fns[op.e] THEN [m EXCEPT !.res = "redefined"]                          \* the same signature twice in ONE engine
           ELSE [m EXCEPT !.fns[op.e] = @ \cup {op.n}, !.res = "ok"])
 
+    [] op.k = "conv" ->      \* chai.add(type_conversion<From<n>, To<n>>())
+         (IF ~m.alive[op.e] THEN [m EXCEPT !.res = "skip"]
+          ELSE IF op.n \in m.convs[op.e] THEN [m EXCEPT !.res = "redefined"]
+          ELSE [m EXCEPT !.convs[op.e] = @ \cup {op.n}, !.res = "ok"])
+    [] op.k = "useconv" ->   \* takes_to<n>(from<n>) evaluated on thread t: needs conversion n of THIS engine
+         (IF ~m.alive[op.e] THEN [m EXCEPT !.res = "skip"]
+          ELSE LET ck == IF CacheShared THEN 99 ELSE KeyOf(m, op.e)
+                   old == m.cache[op.t][ck]
+                   new == IF Cardinality(old) # Cardinality(m.convs[op.e]) THEN m.convs[op.e] ELSE old       \* stale iff the sizes happen to agree
+               IN [m EXCEPT !.cache[op.t][ck] = new,
+                            !.res = IF op.n \in new /\ op.n \in m.convs[op.e] THEN "ok" ELSE "noconv"])          \* a cached yes is still confirmed against the engine
+
 \* the property: every thread sees in every live engine exactly what was declared there
 IsolatedIn(m) == \A e \in EngIds : m.alive[e] => \A t \in Thrs : m.tls[t][KeyOf(m, e)] = m.decls[<<e, t>>]
+\* ... and a conversion is usable in an engine exactly if it was registered in that engine (checked on the step that uses it)
+ConvIsolatedStep(m, op, m2) == op.k = "useconv" /\ m.alive[op.e] => (m2.res = "ok") = (op.n \in m.convs[op.e])
 
 \* what the property demands to be visible (used as expectation in mode G)
 View(m) == [e \in EngIds |-> [alive |-> m.alive[e], fns |-> m.fns[e], vars |-> <<m.decls[<<e, 0>>], m.decls[<<e, 1>>], m.decls[<<e, 2>>]>>]]
@@ -64,15 +84,18 @@ View(m) == [e \in EngIds |-> [alive |-> m.alive[e], fns |-> m.fns[e], vars |-> <
 (* mode M: all histories *)
 Ops == {Op("create", e, a, t, "") : e \in EngIds, a \in Addrs, t \in Thrs} \cup {Op("destroy", e, 0, t, "") : e \in EngIds, t \in Thrs}
        \cup {Op("decl", e, 0, t, n) : e \in EngIds, t \in Thrs, n \in Names} \cup {Op("def", e, 0, 0, n) : e \in EngIds, n \in {"f"}}
+       \cup (IF WithConvs THEN {Op("conv", e, 0, 0, n) : e \in EngIds, n \in Convs} \cup {Op("useconv", e, 0, t, n) : e \in EngIds, t \in {0, 1}, n \in Convs} ELSE {})
 
-VARIABLES m, steps
-vars == <<m, steps>>
-Init == m = M0 /\ steps = 0
-Next == \E op \in Ops : steps < MaxOps /\ LET m2 == Step(m, op) IN m2.res = "ok" /\ m' = m2 /\ steps' = steps + 1
+VARIABLES m, steps, convok
+vars == <<m, steps, convok>>
+Init == m = M0 /\ steps = 0 /\ convok = TRUE
+Next == \E op \in Ops : steps < MaxOps /\ LET m2 == Step(m, op) IN m2.res \in {"ok", "noconv"} /\ m' = m2 /\ steps' = steps + 1
+                                        /\ convok' = (convok /\ ConvIsolatedStep(m, op, m2))
 Spec == Init /\ [][Next]_vars
 Isolated == IsolatedIn(m)
+ConvIsolated == convok
 \* the step counter only bounds the exploration; states are identified without it
-StateView == m
+StateView == <<m, convok>>
 
 -----------------------------------------------------------------------------
 (* mode G: histories drawn by the caller, expectations computed here *)
